@@ -18,6 +18,9 @@ RULE = ("matrices of every data type (dna, rna, protein, standard incl. custom s
         "with explicit per-column character types (parsed from NeXML or built with character_type=) put through 1-3 of "
         "export_character_indices / export_character_subset (single column, trailing block, scattered, reversed, repeated indices), "
         "concatenate / extend_sequences with a second typed matrix, del seq[i] in every row, clone / copy construction / deepcopy) "
+        "; WRITE-EDIT-WRITE histories on one matrix object: observed once (any format, str(seq), symbols_as_list/_string, values()), "
+        "edited in place (set_at, seq[i]=, slice assignment, append/extend/insert/del on every row, m[t]=, fill, pack), then written to "
+        "every format and compared with the live cells; "
         "x target format x writer/reader options, 1xN and Nx1 included, conversion chains of two formats, data sets with 1-3 "
         "namespaces x suppress_block_titles in {default, None, False, True} x {nexus, nexml}; NEXUS data sets also x unquoted_underscores "
         "x preserve_spaces x reader preserve_underscores (where the taxon labels survive it) with namespace / matrix / tree-list labels "
@@ -1862,6 +1865,155 @@ def exec_reject(ctx, dendropy, spec, pending):
         pending.append((line, spec, impl, "nexmlstatus"))
 
 
+# ---------------------------------------------------------------------------------------------- write - edit - write on one matrix object
+def gen_history_spec(rng, dt=None):
+    """ONE matrix object: observed once (a first conversion to some format, str(seq), symbols_as_list, values()), then edited
+    in place by every way a sequence / the matrix offers, then written to every format; the second document must show the
+    live cells.  Length-changing edits are applied to every row (the matrix stays rectangular)."""
+    dt = dt or rng.choice(DTYPES)
+    syms = SYMS.get(dt)
+    ntax, nchar = rng.randint(1, 4), rng.randint(2, 8)
+    labels = ["t%d" % (i + 1) for i in range(ntax)]
+    rows = gen_rows(rng, dt, ntax, nchar, syms)
+
+    def val():
+        return gen_float(rng) if dt == "continuous" else gen_symbol(rng, syms)
+    edits, n = [], nchar
+    for _ in range(rng.randint(1, 5)):
+        k = rng.choice(["set_at", "set_at", "setitem", "slice", "append", "extend", "insert", "del", "matrix_set", "fill", "pack"])
+        if k in ("set_at", "setitem"):
+            edits.append({"op": k, "row": rng.randrange(ntax), "i": rng.randrange(n), "v": val()})
+        elif k == "slice":
+            a = rng.randrange(n)
+            b = rng.randint(a + 1, n)
+            edits.append({"op": k, "row": rng.randrange(ntax), "a": a, "b": b, "vs": [val() for _ in range(b - a)]})
+        elif k == "append":
+            edits.append({"op": k, "vs": [val() for _ in range(ntax)]})
+            n += 1
+        elif k == "extend":
+            w = rng.randint(1, 3)
+            edits.append({"op": k, "vss": [[val() for _ in range(w)] for _ in range(ntax)]})
+            n += w
+        elif k == "insert":
+            edits.append({"op": k, "i": rng.randint(0, n), "vs": [val() for _ in range(ntax)]})
+            n += 1
+        elif k == "del":
+            if n < 2:
+                continue
+            edits.append({"op": k, "i": rng.randrange(n)})
+            n -= 1
+        elif k == "matrix_set":
+            edits.append({"op": k, "row": rng.randrange(ntax), "vs": [val() for _ in range(n)]})
+        else:                                   # one row loses its last cell, fill()/pack() restores the width
+            edits.append({"op": k, "row": rng.randrange(ntax), "v": val()})
+    first = rng.choice([f for f in FORMATS if dt in SUPPORTED[f]] + ["str", "symbols_as_list", "values", "symbols_as_string"])
+    return {"kind": "history", "dt": dt, "labels": labels, "rows": rows, "first": first, "edits": edits,
+            "strict": rng.random() < 0.4}
+
+
+def exec_history(ctx, dendropy, spec):
+    dt = spec["dt"]
+    cls = matrix_class(dendropy, dt)
+    cont = dt == "continuous"
+    tns = dendropy.TaxonNamespace()
+    taxa = [tns.new_taxon(label=l) for l in spec["labels"]]
+    m = cls(taxon_namespace=tns)
+
+    def conv(vs):
+        return [float(x) for x in vs] if cont else list(m.coerce_values(vs))
+    live = [list(r) for r in spec["rows"]]
+    for t, r in zip(taxa, live):
+        m[t] = conv(r)
+    ctx.case(["history", spec], True, kind="history/%s/%s" % (dt, spec["first"]),
+             sample={"dt": dt, "first": spec["first"], "edits": [e["op"] for e in spec["edits"]]})
+    wk = {"strict": True} if spec.get("strict") else {}
+    try:
+        f0 = spec["first"]
+        if f0 in FORMATS:
+            m.as_string(f0, **(wk if f0 == "phylip" else {}))
+        else:
+            for t in taxa:
+                seq = m[t]
+                if f0 == "str":
+                    str(seq)
+                elif f0 == "symbols_as_list":
+                    seq.symbols_as_list()
+                elif f0 == "symbols_as_string":
+                    seq.symbols_as_string()
+                    seq.symbols_as_string(sep=" ")
+                else:
+                    list(seq.values())
+        for e in spec["edits"]:
+            k = e["op"]
+            if k == "set_at":
+                m[taxa[e["row"]]].set_at(e["i"], conv([e["v"]])[0])
+                live[e["row"]][e["i"]] = e["v"]
+            elif k == "setitem":
+                m[taxa[e["row"]]][e["i"]] = conv([e["v"]])[0]
+                live[e["row"]][e["i"]] = e["v"]
+            elif k == "slice":
+                m[taxa[e["row"]]][e["a"]:e["b"]] = conv(e["vs"])
+                live[e["row"]][e["a"]:e["b"]] = e["vs"]
+            elif k == "append":
+                for t, L, v in zip(taxa, live, e["vs"]):
+                    m[t].append(conv([v])[0])
+                    L.append(v)
+            elif k == "extend":
+                for t, L, vs in zip(taxa, live, e["vss"]):
+                    m[t].extend(conv(vs))
+                    L.extend(vs)
+            elif k == "insert":
+                for t, L, v in zip(taxa, live, e["vs"]):
+                    m[t].insert(e["i"], conv([v])[0])
+                    L.insert(e["i"], v)
+            elif k == "del":
+                for t, L in zip(taxa, live):
+                    del m[t][e["i"]]
+                    del L[e["i"]]
+            elif k == "matrix_set":
+                m[taxa[e["row"]]] = conv(e["vs"])
+                live[e["row"]] = list(e["vs"])
+            else:
+                del m[taxa[e["row"]]][len(live[e["row"]]) - 1]
+                pv = conv([e["v"]])[0]
+                if k == "fill":
+                    m.fill(pv, size=len(live[e["row"]]))
+                else:
+                    m.pack(pv, size=len(live[e["row"]]))
+                live[e["row"]][-1] = e["v"]
+    except Exception as ex:
+        if is_library_exception_safe(ex):
+            ctx.fail("history:edit", "%s matrix: observing (%s) then editing in place raises %s: %s" % (
+                dt, spec["first"], type(ex).__name__, str(ex)[:160]), spec)
+            return
+        raise
+    ref = [[l, list(L)] for l, L in zip(spec["labels"], live)]
+    if not same_content(ref, content(m)):
+        ctx.fail("history:matrix", "%s matrix after in-place edits holds %s, the edits say %s" % (dt, brief(content(m)), brief(ref)), spec)
+        return
+    for f in FORMATS:
+        if dt not in SUPPORTED[f]:
+            continue
+        try:
+            text = m.as_string(f, **(wk if f == "phylip" else {}))
+            got = content(cls.get(data=text, schema=f, **(wk if f == "phylip" else {})))
+        except Exception as ex:
+            report(ctx, "history:" + f, "%s matrix observed (%s), edited in place (%s), written to %s: cannot be read back: %s: %s" % (
+                dt, spec["first"], ",".join(e["op"] for e in spec["edits"]), f, type(ex).__name__, str(ex)[:160]), spec)
+            continue
+        if not same_content(ref, got):
+            report(ctx, "history:" + f, "%s matrix observed (%s), edited in place (%s), written to %s: the document says %s, the matrix holds %s" % (
+                dt, spec["first"], ",".join(e["op"] for e in spec["edits"]), f, brief(got), brief(ref)), spec, got)
+
+
+def is_library_exception_safe(ex):
+    import common
+    try:
+        return common.is_library_exception(ex)
+    except Exception:
+        return False
+
+
 # ---------------------------------------------------------------------------------------------- entry points
 def exec_spec(ctx, dendropy, spec, pending):
     k = spec.get("kind")
@@ -1877,6 +2029,8 @@ def exec_spec(ctx, dendropy, spec, pending):
         check_alphabets(ctx, dendropy, pending)
     elif k == "tok":
         check_tokens(ctx, dendropy, pending)
+    elif k == "history":
+        exec_history(ctx, dendropy, spec)
     elif k == "dec":
         check_decimals(ctx, pending)
     else:
@@ -1911,6 +2065,8 @@ def run(ctx):
                     continue
                 exec_spec(ctx, dendropy, gen_dataset_spec(rng, schema=schema, sbt=sbt, n=n, fancy=False), pending)
     for dt in DTYPES:
+        for _ in range(3):
+            exec_spec(ctx, dendropy, gen_history_spec(rng, dt=dt), pending)
         for f in FORMATS:
             if dt in SUPPORTED[f] or (f == "nexus" and dt in ("restriction", "infinite")):
                 exec_spec(ctx, dendropy, gen_matrix_spec(rng, dt=dt, via="dict", fmt=f), pending)
@@ -1924,7 +2080,9 @@ def run(ctx):
         if ctx.out_of_time():
             break
         r0 = rng.random()
-        if r0 < 0.06:
+        if r0 > 0.93:
+            spec = gen_history_spec(rng)
+        elif r0 < 0.06:
             spec = gen_reject_spec(rng)
         elif r0 < 0.22:
             spec = gen_dataset_spec(rng)
